@@ -15,7 +15,7 @@
    correspondence (instances are compared by pointer identity, never by key text).
    dynsampler-go is an ideal object: an instance is an id, its generation and its goal.
    No proofs in this file. *)
-From Refinery Require Import Lib.Base Model.TraceKey.
+From Refinery Require Import Lib.Base Lib.Strs_samp.
 From Refinery Require Gen.GenC12.
 
 (* ---------- definitions ---------- *)
